@@ -130,7 +130,7 @@ class MemMixin:
                 i = el[1].c
                 if 0 <= i < len(v.elems):
                     return v.elems[i]
-            return self.unknown_elem(st, v)
+            return self.unknown_elem(st, v, el[1])
         raise Abort("project %r" % (el,))
 
     def unknown_elem(self, st, v, idx=None):
@@ -138,6 +138,13 @@ class MemMixin:
         if isinstance(v, VVec) and ety is not None and idx is not None and v.name and self.T(ety)["k"] == "adt":
             # deterministic symbolic element: repeated reads of the same element agree
             return self.symval(st, ety, "%s[%s]" % (v.name, idx))
+        if isinstance(v, VArr) and v.name and idx is not None:
+            # deterministic, provenance-carrying element of an opaque array (e.g. an MD5 digest)
+            nm = "%s[%r]" % (v.name, idx)
+            if not hasattr(self, "elem_syms"):
+                self.elem_syms = {}
+            self.elem_syms[nm] = (v.name, idx if isinstance(idx, Lin) else Lin.const(idx), v.src)
+            return self.named_int(self.u8_ty(), nm)
         if ety is None:
             ety = self.u8_ty()
         return self.new_int(ety, "elem") if self.T(ety)["k"] == "int" else VUnknown(ety, self.fresh("elem"))
